@@ -90,35 +90,66 @@ Proof.
     destruct (x <=? c - 1) eqn:E2; [lia|]. apply IH. exact F.
 Qed.
 
+(** ** Admissible denomination ladders
+
+    Everything the planner's loops need to know about the list [L] of admissible denominations of
+    a strategy with bounds [mind .. maxd].  [zip318_ladder] (below) provides it for the normative
+    ZIP 318 bounds, [ProofsLadder.ladder_of] for every power-of-ten minimum and every maximum. *)
+Record Ladder (L : list Z) (mind maxd : Z) : Prop := mkLadder {
+  lad_sorted : StronglySorted Z.gt L;
+  lad_bounds : forall s, In s L -> mind <= s <= maxd;
+  lad_l125 : forall aff, mind <= aff -> aff <= maxd ->
+             largest_one_two_five aff mind = hd 0 (filter (fun s => s <=? aff) L);
+  lad_min : mind <= maxd -> In mind L;
+  lad_short : (length L < DESCEND_FUEL)%nat;
+  lad_pos : 0 < mind;
+  lad_min_le : mind <= MAX_MONEY;
+  lad_max : maxd <= MAX_MONEY;
+  lad_fix : forall e, mind <= e -> e <= maxd ->
+            (largest_one_two_five e mind =? e) = existsb (Z.eqb e) L }.
+
+Lemma existsb_out_of_bounds L mind maxd e :
+  (forall s, In s L -> mind <= s <= maxd) -> ~ (mind <= e <= maxd) -> existsb (Z.eqb e) L = false.
+Proof.
+  intros HB Ho. destruct (existsb (Z.eqb e) L) eqn:E; [|reflexivity].
+  apply existsb_exists in E. destruct E as [x [Hx Ex]]. apply Z.eqb_eq in Ex. subst x.
+  specialize (HB e Hx). lia.
+Qed.
+
+Lemma filter_length_le {A} (f : A -> bool) l : (length (filter f l) <= length l)%nat.
+Proof. induction l as [|a l IH]; cbn [filter length]; [lia|]. destruct (f a); cbn [length]; lia. Qed.
+
 (** ** The inner descent finds the largest fundable denomination *)
 Section Split.
   Variables total buffer fee cap : Z.
+  Variables (L : list Z) (mind maxd : Z).
+  Hypothesis HL : Ladder L mind maxd.
   Hypothesis Htotal : 0 <= total <= MAX_MONEY.
   Hypothesis Hbuffer : 0 <= buffer <= MAX_MONEY.
   Hypothesis Hfee : 0 <= fee <= MAX_MONEY.
-  Let St := zip318_strategy cap buffer.
+  Let St := mkStrategy cap maxd mind buffer.
 
   Lemma descend_find fuel : forall k cn aff,
-    0 <= k -> 0 <= cn <= MAX_MONEY -> aff <= CAP ->
+    0 <= k -> 0 <= cn <= MAX_MONEY -> aff <= maxd ->
     0 <= stxs (k + 1) * fee <= 2 * MAX_MONEY ->
-    (length (filter (fun s => (s <=? aff)%Z) series) < fuel)%nat ->
+    (length (filter (fun s => (s <=? aff)%Z) L) < fuel)%nat ->
     descend fuel St total fee k cn aff
-    = Ok (find (fundable total buffer fee cn k) (filter (fun s => s <=? aff) series)).
+    = Ok (find (fundable total buffer fee cn k) (filter (fun s => s <=? aff) L)).
   Proof.
-    pose proof MM_small. pose proof CAP_le_MM. pose proof MIN_pos.
+    pose proof MM_small. pose proof (lad_max _ _ _ HL). pose proof (lad_pos _ _ _ HL).
     induction fuel as [|f IH]; intros k cn aff Hk Hcn Haff Hm Hlen; [lia|].
-    cbn [descend St zip318_strategy s_mind s_buf]. fold MIN.
-    destruct (aff <? MIN) eqn:E1.
-    - rewrite filter_nil; [reflexivity|]. intros x Hx. apply series_bounds in Hx. lia.
-    - rewrite l125_series by lia.
-      destruct (filter (fun s => s <=? aff) series) as [|c rest] eqn:F.
-      + exfalso. assert (In MIN (filter (fun s => s <=? aff) series)).
-        { apply (proj2 (filter_In _ _ _)). split; [apply MIN_in_series | lia]. }
+    cbn [descend St s_mind s_buf].
+    destruct (aff <? mind) eqn:E1.
+    - rewrite filter_nil; [reflexivity|]. intros x Hx. apply (lad_bounds _ _ _ HL) in Hx. lia.
+    - rewrite (lad_l125 _ _ _ HL) by lia.
+      destruct (filter (fun s => s <=? aff) L) as [|c rest] eqn:F.
+      + exfalso. assert (In mind (filter (fun s => s <=? aff) L)).
+        { apply (proj2 (filter_In _ _ _)). split; [apply (lad_min _ _ _ HL); lia | lia]. }
         rewrite F in H2. destruct H2.
       + cbn [hd].
-        assert (Hc : In c (filter (fun s => s <=? aff) series)) by (rewrite F; left; reflexivity).
-        destruct (proj1 (filter_In _ _ _) Hc) as [Hc1 Hc2]. pose proof (series_bounds c Hc1) as Hc3.
-        destruct (c <? MIN) eqn:E2; [lia|].
+        assert (Hc : In c (filter (fun s => s <=? aff) L)) by (rewrite F; left; reflexivity).
+        destruct (proj1 (filter_In _ _ _) Hc) as [Hc1 Hc2]. pose proof (lad_bounds _ _ _ HL c Hc1) as Hc3.
+        destruct (c <? mind) eqn:E2; [lia|].
         rewrite (u64_ok (cn + c)) by lia. cbn [bind].
         rewrite (u64_ok (cn + c + buffer)) by lia. cbn [bind].
         rewrite stxs_eq by lia.
@@ -127,45 +158,39 @@ Section Split.
         cbn [find]. unfold fundable at 1.
         destruct (cn + c + buffer + stxs (k + 1) * fee <=? total) eqn:E3; [reflexivity|].
         rewrite (u64_ok (c - 1)) by lia. cbn [bind].
-        pose proof (filter_desc_tail series aff c rest series_sorted F) as T.
+        pose proof (filter_desc_tail L aff c rest (lad_sorted _ _ _ HL) F) as T.
         rewrite IH; try lia.
         * rewrite T. reflexivity.
         * rewrite T. cbn [length] in Hlen. lia.
   Qed.
 
-  Lemma series_short : (length series < DESCEND_FUEL)%nat.
-  Proof. rewrite series_eq. unfold DESCEND_FUEL. cbn [length]. lia. Qed.
-
-  Lemma filter_length_le {A} (f : A -> bool) l : (length (filter f l) <= length l)%nat.
-  Proof. induction l as [|a l IH]; cbn [filter length]; [lia|]. destruct (f a); cbn [length]; lia. Qed.
-
   (** ** The outer loop is the specification's greedy *)
   Lemma split_loop_greedy fuel : forall k cn,
     0 <= k -> 0 <= cn -> cn + stxs k * fee <= total ->
-    split_loop fuel St total fee (MIN + buffer) k cn = Ok (greedy fuel total buffer fee cn k).
+    split_loop fuel St total fee (mind + buffer) k cn = Ok (greedy_of L fuel total buffer fee cn k).
   Proof.
-    pose proof MM_small. pose proof CAP_le_MM. pose proof MIN_pos.
+    pose proof MM_small. pose proof (lad_max _ _ _ HL). pose proof (lad_pos _ _ _ HL).
     induction fuel as [|f IH]; intros k cn Hk Hcn Hinv; [reflexivity|].
-    cbn [split_loop greedy].
+    cbn [split_loop greedy_of].
     destruct (stxs_mul_step k fee Hk ltac:(lia)) as [M0 [M1 M2]].
     rewrite stxs_eq by lia.
     rewrite (u64_ok (stxs k * fee)) by lia. cbn [bind].
     rewrite (u64_ok (cn + stxs k * fee)) by lia. cbn [bind].
     unfold sat_sub. destruct (total <? cn + stxs k * fee) eqn:E0; [lia|].
-    destruct (total - (cn + stxs k * fee) <? MIN + buffer) eqn:E1.
-    - rewrite find_none_all; [reflexivity|]. intros s Hs. apply series_bounds in Hs.
+    destruct (total - (cn + stxs k * fee) <? mind + buffer) eqn:E1.
+    - rewrite find_none_all; [reflexivity|]. intros s Hs. apply (lad_bounds _ _ _ HL) in Hs.
       unfold fundable. lia.
-    - cbn [St zip318_strategy s_buf s_maxd]. fold CAP.
+    - cbn [St s_buf s_maxd].
       rewrite (u64_ok (total - (cn + stxs k * fee) - buffer)) by lia. cbn [bind].
       fold St. rewrite descend_find; try lia.
-      2:{ pose proof series_short.
-          pose proof (filter_length_le (fun s => s <=? Z.min (total - (cn + stxs k * fee) - buffer) CAP) series).
+      2:{ pose proof (lad_short _ _ _ HL).
+          pose proof (filter_length_le (fun s => s <=? Z.min (total - (cn + stxs k * fee) - buffer) maxd) L).
           lia. }
       cbn [bind].
       rewrite find_filter.
-      2:{ intros s Hs Fs. apply series_bounds in Hs. unfold fundable in Fs. lia. }
-      destruct (find (fundable total buffer fee cn k) series) as [c|] eqn:Fd; [|reflexivity].
-      apply find_some in Fd. destruct Fd as [Hc Fc]. apply series_bounds in Hc. unfold fundable in Fc.
+      2:{ intros s Hs Fs. apply (lad_bounds _ _ _ HL) in Hs. unfold fundable in Fs. lia. }
+      destruct (find (fundable total buffer fee cn k) L) as [c|] eqn:Fd; [|reflexivity].
+      apply find_some in Fd. destruct Fd as [Hc Fc]. apply (lad_bounds _ _ _ HL) in Hc. unfold fundable in Fc.
       rewrite (u64_ok (c + buffer)) by lia. cbn [bind].
       rewrite (u64_ok (cn + (c + buffer))) by lia. cbn [bind].
       rewrite IH; try lia. cbn [bind].
@@ -173,218 +198,301 @@ Section Split.
   Qed.
 
   Lemma exact_funding_note nc : 0 <= cap ->
-    exact_funding St total nc = exact_note total buffer (nc =? 1) && (0 <? Z.to_nat cap)%nat.
+    exact_funding St total nc = exact_note_of L total buffer (nc =? 1) && (0 <? Z.to_nat cap)%nat.
   Proof.
-    intros Hcap. unfold exact_funding, exact_note. cbn [St zip318_strategy s_buf s_mind s_maxd s_max_notes].
-    fold MIN CAP. unfold sat_sub.
+    intros Hcap. unfold exact_funding, exact_note_of. cbn [St s_buf s_mind s_maxd s_max_notes].
+    unfold sat_sub.
     assert (Ecap : (0 <? Z.to_nat cap)%nat = (0 <? cap)) by lia. rewrite Ecap.
     destruct (nc =? 1); [|reflexivity]. destruct (0 <? cap); [|cbn; rewrite !andb_false_r; reflexivity].
     cbn [andb]. destruct (buffer <=? total) eqn:B; [|reflexivity]. cbn [andb].
     destruct (total <? buffer) eqn:B2; [lia|]. rewrite andb_true_r.
-    destruct (MIN <=? total - buffer) eqn:R1; cbn [andb].
-    - destruct (total - buffer <=? CAP) eqn:R2; cbn [andb].
-      + apply l125_canonical_fix; lia.
-      + destruct (canonicalb (total - buffer)) eqn:C; [|reflexivity].
-        destruct (proj1 (canonicalb_spec _) C) as [_ C']. lia.
-    - destruct (canonicalb (total - buffer)) eqn:C; [|reflexivity].
-      destruct (proj1 (canonicalb_spec _) C) as [_ C']. lia.
+    destruct (mind <=? total - buffer) eqn:R1; cbn [andb].
+    - destruct (total - buffer <=? maxd) eqn:R2; cbn [andb].
+      + apply (lad_fix _ _ _ HL); lia.
+      + symmetry. apply (existsb_out_of_bounds L mind maxd); [apply (lad_bounds _ _ _ HL) | lia].
+    - symmetry. apply (existsb_out_of_bounds L mind maxd); [apply (lad_bounds _ _ _ HL) | lia].
   Qed.
 
-  (** The model's split never panics, never exhausts its fuel, and is the canonical split. *)
-  Theorem split_correct nc : 0 <= cap ->
+  (** The model's split never panics, never exhausts its fuel, and is the specification's split. *)
+  Theorem split_correct_g nc : 0 <= cap ->
     unconstrained_split St total nc fee
-    = Ok (canonical_split (Z.to_nat cap) total buffer fee (nc =? 1)).
+    = Ok (split_of L (Z.to_nat cap) total buffer fee (nc =? 1)).
   Proof.
-    pose proof MM_small. pose proof MIN_pos. pose proof CAP_le_MM. pose proof MIN_le_CAP.
-    intros Hcap. unfold unconstrained_split, canonical_split.
-    cbn [St zip318_strategy s_mind s_buf s_max_notes]. fold St. fold MIN.
-    rewrite (u64_ok (MIN + buffer)) by lia. cbn [bind].
+    pose proof MM_small. pose proof (lad_pos _ _ _ HL). pose proof (lad_min_le _ _ _ HL).
+    intros Hcap. unfold unconstrained_split, split_of.
+    cbn [St s_mind s_buf s_max_notes]. fold St.
+    rewrite (u64_ok (mind + buffer)) by lia. cbn [bind].
     rewrite exact_funding_note by assumption.
-    destruct (exact_note total buffer (nc =? 1) && (0 <? Z.to_nat cap)%nat) eqn:E.
-    - unfold sat_sub. unfold exact_note in E. destruct (total <? buffer) eqn:B; [lia | reflexivity].
+    destruct (exact_note_of L total buffer (nc =? 1) && (0 <? Z.to_nat cap)%nat) eqn:E.
+    - unfold sat_sub. unfold exact_note_of in E. destruct (total <? buffer) eqn:B; [lia | reflexivity].
     - apply split_loop_greedy; try lia. rewrite stxs_0. lia.
   Qed.
 End Split.
 
-(** ** Properties of the canonical split (specification side) *)
+(** ** Properties of the greedy (specification side) *)
 Section Greedy.
   Variables total buffer fee : Z.
+  Variables (L : list Z) (mind maxd : Z).
+  Hypothesis HL : Ladder L mind maxd.
   Hypothesis Hbuffer : 0 <= buffer.
   Hypothesis Hfee : 0 <= fee.
 
   Definition notes_of (l : list Z) : list Z := map (fun c => c + buffer) l.
   Ltac nil_simp := cbn [length notes_of map sumZ fold_right Z.of_nat]; rewrite ?Z.add_0_r, ?Z.add_0_l.
 
-  Lemma greedy_series fuel : forall cn k, Forall (fun s => In s series) (greedy fuel total buffer fee cn k).
+  Lemma greedy_series fuel : forall cn k, Forall (fun s => In s L) (greedy_of L fuel total buffer fee cn k).
   Proof.
-    induction fuel as [|f IH]; intros cn k; cbn [greedy]; [constructor|].
-    destruct (find (fundable total buffer fee cn k) series) as [s|] eqn:F; [|constructor].
+    induction fuel as [|f IH]; intros cn k; cbn [greedy_of]; [constructor|].
+    destruct (find (fundable total buffer fee cn k) L) as [s|] eqn:F; [|constructor].
     constructor; [apply find_some in F; apply F | apply IH].
   Qed.
 
-  Lemma greedy_length fuel : forall cn k, (length (greedy fuel total buffer fee cn k) <= fuel)%nat.
+  Lemma greedy_length fuel : forall cn k, (length (greedy_of L fuel total buffer fee cn k) <= fuel)%nat.
   Proof.
-    induction fuel as [|f IH]; intros cn k; cbn [greedy]; [cbn; lia|].
-    destruct (find _ series); cbn [length]; [specialize (IH (cn + z + buffer) (k + 1)) |]; lia.
+    induction fuel as [|f IH]; intros cn k; cbn [greedy_of]; [cbn; lia|].
+    destruct (find _ L); cbn [length]; [specialize (IH (cn + z + buffer) (k + 1)) |]; lia.
   Qed.
 
   Lemma greedy_cost fuel : forall cn k, 0 <= k -> cn + stxs k * fee <= total ->
-    let g := greedy fuel total buffer fee cn k in
+    let g := greedy_of L fuel total buffer fee cn k in
     cn + sumZ (notes_of g) + stxs (k + Z.of_nat (length g)) * fee <= total.
   Proof.
-    induction fuel as [|f IH]; intros cn k Hk Hinv; cbn [greedy].
+    induction fuel as [|f IH]; intros cn k Hk Hinv; cbn [greedy_of].
     - nil_simp. exact Hinv.
-    - destruct (find (fundable total buffer fee cn k) series) as [s|] eqn:F.
+    - destruct (find (fundable total buffer fee cn k) L) as [s|] eqn:F.
       + apply find_some in F. destruct F as [_ F]. unfold fundable in F.
         specialize (IH (cn + s + buffer) (k + 1) ltac:(lia) ltac:(lia)). cbn zeta in IH.
-        cbn [notes_of map sumZ fold_right length]. fold (notes_of (greedy f total buffer fee (cn + s + buffer) (k + 1))).
-        fold (sumZ (notes_of (greedy f total buffer fee (cn + s + buffer) (k + 1)))).
+        cbn [notes_of map sumZ fold_right length]. fold (notes_of (greedy_of L f total buffer fee (cn + s + buffer) (k + 1))).
+        fold (sumZ (notes_of (greedy_of L f total buffer fee (cn + s + buffer) (k + 1)))).
         rewrite Nat2Z.inj_succ.
-        replace (k + Z.succ (Z.of_nat (length (greedy f total buffer fee (cn + s + buffer) (k + 1)))))
-          with (k + 1 + Z.of_nat (length (greedy f total buffer fee (cn + s + buffer) (k + 1)))) by lia.
+        replace (k + Z.succ (Z.of_nat (length (greedy_of L f total buffer fee (cn + s + buffer) (k + 1)))))
+          with (k + 1 + Z.of_nat (length (greedy_of L f total buffer fee (cn + s + buffer) (k + 1)))) by lia.
         lia.
       + nil_simp. exact Hinv.
   Qed.
 
-  Lemma greedy_sorted fuel : forall cn k, 0 <= k -> nonincreasing (greedy fuel total buffer fee cn k) = true.
+  Lemma greedy_sorted fuel : forall cn k, 0 <= k -> nonincreasing (greedy_of L fuel total buffer fee cn k) = true.
   Proof.
-    induction fuel as [|f IH]; intros cn k Hk; cbn [greedy]; [reflexivity|].
-    destruct (find (fundable total buffer fee cn k) series) as [s|] eqn:F; [|reflexivity].
+    induction fuel as [|f IH]; intros cn k Hk; cbn [greedy_of]; [reflexivity|].
+    destruct (find (fundable total buffer fee cn k) L) as [s|] eqn:F; [|reflexivity].
     specialize (IH (cn + s + buffer) (k + 1) ltac:(lia)).
-    destruct f as [|f']; [reflexivity|]. cbn [greedy] in *.
-    destruct (find (fundable total buffer fee (cn + s + buffer) (k + 1)) series) as [s'|] eqn:F'; [|reflexivity].
+    destruct f as [|f']; [reflexivity|]. cbn [greedy_of] in *.
+    destruct (find (fundable total buffer fee (cn + s + buffer) (k + 1)) L) as [s'|] eqn:F'; [|reflexivity].
     cbn [nonincreasing] in *. rewrite IH, andb_true_r.
-    apply Z.leb_le. apply (find_max _ _ _ series_sorted F).
+    apply Z.leb_le. apply (find_max _ _ _ (lad_sorted _ _ _ HL) F).
     - apply find_some in F'. apply F'.
     - apply find_some in F'. destruct F' as [_ F']. apply find_some in F. destruct F as [Hs _].
-      apply series_bounds in Hs. pose proof MIN_pos.
+      apply (lad_bounds _ _ _ HL) in Hs. pose proof (lad_pos _ _ _ HL).
       unfold fundable in *.
       destruct (stxs_mul_step (k + 1) fee ltac:(lia) Hfee) as [_ [M _]]. lia.
   Qed.
 
   Lemma greedy_firstn c1 : forall c2 cn k, (c1 <= c2)%nat ->
-    greedy c1 total buffer fee cn k = firstn c1 (greedy c2 total buffer fee cn k).
+    greedy_of L c1 total buffer fee cn k = firstn c1 (greedy_of L c2 total buffer fee cn k).
   Proof.
     induction c1 as [|c IH]; intros c2 cn k Hle; [reflexivity|].
-    destruct c2 as [|c2]; [lia|]. cbn [greedy].
-    destruct (find (fundable total buffer fee cn k) series); [|reflexivity].
+    destruct c2 as [|c2]; [lia|]. cbn [greedy_of].
+    destruct (find (fundable total buffer fee cn k) L); [|reflexivity].
     cbn [firstn]. f_equal. apply IH. lia.
   Qed.
 
   (** where the greedy stopped before its fuel ran out, no denomination is fundable any more *)
   Lemma greedy_stop fuel : forall cn k,
-    let g := greedy fuel total buffer fee cn k in
+    let g := greedy_of L fuel total buffer fee cn k in
     (length g < fuel)%nat ->
-    find (fundable total buffer fee (cn + sumZ (notes_of g)) (k + Z.of_nat (length g))) series = None.
+    find (fundable total buffer fee (cn + sumZ (notes_of g)) (k + Z.of_nat (length g))) L = None.
   Proof.
-    induction fuel as [|f IH]; intros cn k; cbn [greedy]; [cbn; lia|].
-    destruct (find (fundable total buffer fee cn k) series) as [s|] eqn:F.
+    induction fuel as [|f IH]; intros cn k; cbn [greedy_of]; [cbn; lia|].
+    destruct (find (fundable total buffer fee cn k) L) as [s|] eqn:F.
     - cbn zeta. cbn [length notes_of map sumZ fold_right]. intros Hl.
       specialize (IH (cn + s + buffer) (k + 1) ltac:(lia)). cbn zeta in IH.
-      fold (notes_of (greedy f total buffer fee (cn + s + buffer) (k + 1))).
-      fold (sumZ (notes_of (greedy f total buffer fee (cn + s + buffer) (k + 1)))).
+      fold (notes_of (greedy_of L f total buffer fee (cn + s + buffer) (k + 1))).
+      fold (sumZ (notes_of (greedy_of L f total buffer fee (cn + s + buffer) (k + 1)))).
       rewrite Nat2Z.inj_succ.
-      replace (cn + (s + buffer + sumZ (notes_of (greedy f total buffer fee (cn + s + buffer) (k + 1)))))
-        with (cn + s + buffer + sumZ (notes_of (greedy f total buffer fee (cn + s + buffer) (k + 1)))) by ring.
-      replace (k + Z.succ (Z.of_nat (length (greedy f total buffer fee (cn + s + buffer) (k + 1)))))
-        with (k + 1 + Z.of_nat (length (greedy f total buffer fee (cn + s + buffer) (k + 1)))) by lia.
+      replace (cn + (s + buffer + sumZ (notes_of (greedy_of L f total buffer fee (cn + s + buffer) (k + 1)))))
+        with (cn + s + buffer + sumZ (notes_of (greedy_of L f total buffer fee (cn + s + buffer) (k + 1)))) by ring.
+      replace (k + Z.succ (Z.of_nat (length (greedy_of L f total buffer fee (cn + s + buffer) (k + 1)))))
+        with (k + 1 + Z.of_nat (length (greedy_of L f total buffer fee (cn + s + buffer) (k + 1)))) by lia.
       exact IH.
     - nil_simp. intros _. exact F.
   Qed.
 
-  Lemma greedy_residual fuel : forall cn k, 0 <= k ->
-    let g := greedy fuel total buffer fee cn k in
+  Lemma greedy_residual fuel : forall cn k, 0 <= k -> mind <= maxd ->
+    let g := greedy_of L fuel total buffer fee cn k in
     (length g < fuel)%nat ->
-    total - (cn + sumZ (notes_of g)) - stxs (k + Z.of_nat (length g)) * fee < MIN + buffer + fee.
+    total - (cn + sumZ (notes_of g)) - stxs (k + Z.of_nat (length g)) * fee < mind + buffer + fee.
   Proof.
-    intros cn k Hk g Hl. pose proof (greedy_stop fuel cn k Hl) as N. fold g in N.
-    pose proof (find_none _ _ N MIN MIN_in_series) as M. unfold fundable in M.
+    intros cn k Hk Hmm g Hl. pose proof (greedy_stop fuel cn k Hl) as N. fold g in N.
+    pose proof (find_none _ _ N mind (lad_min _ _ _ HL Hmm)) as M. unfold fundable in M.
     destruct (stxs_mul_step (k + Z.of_nat (length g)) fee ltac:(lia) Hfee) as [_ [_ M2]]. lia.
   Qed.
 End Greedy.
 
-(** ** Properties of [canonical_split] *)
+(** ** Properties of [split_of] *)
 Section Canonical.
   Variables total buffer fee : Z.
+  Variables (L : list Z) (mind maxd : Z).
+  Hypothesis HL : Ladder L mind maxd.
   Hypothesis Hbuffer : 0 <= buffer.
   Hypothesis Hfee : 0 <= fee.
 
-  Lemma exact_note_canonical single : exact_note total buffer single = true -> In (total - buffer) series.
+  Lemma exact_note_in single : exact_note_of L total buffer single = true -> In (total - buffer) L.
   Proof.
-    unfold exact_note. intros H. apply (proj1 (canonicalb_In _)).
-    destruct single; [|discriminate]. destruct (buffer <=? total); [|discriminate]. exact H.
+    unfold exact_note_of. intros H.
+    destruct single; [|discriminate]. destruct (buffer <=? total); [|discriminate]. cbn [andb] in H.
+    apply existsb_exists in H. destruct H as [x [Hx E]]. apply Z.eqb_eq in E. subst x. exact Hx.
   Qed.
 
-  Theorem split_canonical cap single : Forall Canonical (canonical_split cap total buffer fee single).
+  Theorem split_members_g cap single : Forall (fun s => In s L) (split_of L cap total buffer fee single).
   Proof.
-    unfold canonical_split.
-    destruct (exact_note total buffer single && (0 <? cap)%nat) eqn:E.
-    - constructor; [|constructor]. refine (series_canonical _ (exact_note_canonical single _)).
-      destruct (exact_note total buffer single); [reflexivity | discriminate].
-    - eapply Forall_impl; [|apply greedy_series]. intros a Ha. exact (series_canonical a Ha).
+    unfold split_of.
+    destruct (exact_note_of L total buffer single && (0 <? cap)%nat) eqn:E.
+    - constructor; [|constructor]. apply (exact_note_in single).
+      destruct (exact_note_of L total buffer single); [reflexivity | discriminate].
+    - apply greedy_series.
   Qed.
 
-  Theorem split_sorted cap single : nonincreasing (canonical_split cap total buffer fee single) = true.
+  Theorem split_sorted_g cap single : nonincreasing (split_of L cap total buffer fee single) = true.
   Proof.
-    unfold canonical_split. destruct (exact_note total buffer single && (0 <? cap)%nat); [reflexivity|].
-    apply greedy_sorted; lia.
+    unfold split_of. destruct (exact_note_of L total buffer single && (0 <? cap)%nat); [reflexivity|].
+    apply (greedy_sorted total buffer fee L mind maxd HL); lia.
   Qed.
 
-  Theorem split_length cap single : (length (canonical_split cap total buffer fee single) <= cap)%nat.
+  Theorem split_length_g cap single : (length (split_of L cap total buffer fee single) <= cap)%nat.
   Proof.
-    unfold canonical_split. destruct (exact_note total buffer single && (0 <? cap)%nat) eqn:E.
+    unfold split_of. destruct (exact_note_of L total buffer single && (0 <? cap)%nat) eqn:E.
     - cbn [length]. destruct (0 <? cap)%nat eqn:C; [lia | rewrite andb_false_r in E; discriminate].
     - apply greedy_length.
   Qed.
 
-  (** The split under a smaller cap is a prefix of the split under a larger one: the cap only
-      truncates. *)
-  Theorem split_cap_prefix c1 c2 single : (1 <= c1 <= c2)%nat ->
-    canonical_split c1 total buffer fee single = firstn c1 (canonical_split c2 total buffer fee single).
+  Theorem split_cap_prefix_g c1 c2 single : (1 <= c1 <= c2)%nat ->
+    split_of L c1 total buffer fee single = firstn c1 (split_of L c2 total buffer fee single).
   Proof.
-    intros H. unfold canonical_split.
+    intros H. unfold split_of.
     assert (E1 : (0 <? c1)%nat = true) by lia. assert (E2 : (0 <? c2)%nat = true) by lia.
-    rewrite E1, E2, !andb_true_r. destruct (exact_note total buffer single).
+    rewrite E1, E2, !andb_true_r. destruct (exact_note_of L total buffer single).
     - destruct c1; [lia|]. cbn [firstn]. rewrite firstn_nil. reflexivity.
     - apply greedy_firstn. lia.
   Qed.
 
-  (** Whether the balance quantizes to anything at all does not depend on the (positive) cap. *)
-  Theorem split_emptiness_cap_invariant c1 c2 single : (1 <= c1)%nat -> (1 <= c2)%nat ->
-    (canonical_split c1 total buffer fee single = [] <-> canonical_split c2 total buffer fee single = []).
+  Theorem split_emptiness_g c1 c2 single : (1 <= c1)%nat -> (1 <= c2)%nat ->
+    (split_of L c1 total buffer fee single = [] <-> split_of L c2 total buffer fee single = []).
   Proof.
-    intros H1 H2. unfold canonical_split.
+    intros H1 H2. unfold split_of.
     assert (E1 : (0 <? c1)%nat = true) by lia. assert (E2 : (0 <? c2)%nat = true) by lia.
-    rewrite E1, E2, !andb_true_r. destruct (exact_note total buffer single); [tauto|].
-    destruct c1 as [|c1]; [lia|]. destruct c2 as [|c2]; [lia|]. cbn [greedy].
-    destruct (find (fundable total buffer fee 0 0) series); split; intros; congruence.
+    rewrite E1, E2, !andb_true_r. destruct (exact_note_of L total buffer single); [tauto|].
+    destruct c1 as [|c1]; [lia|]. destruct c2 as [|c2]; [lia|]. cbn [greedy_of].
+    destruct (find (fundable total buffer fee 0 0) L); split; intros; congruence.
   Qed.
 
-  (** Cost invariant of the full split with the planner's assumed number of transactions. *)
-  Theorem split_cost cap single : 0 <= total ->
-    let s := canonical_split cap total buffer fee single in
-    sumZ (notes_of buffer s) + assumed_txs cap total buffer fee single * fee <= total.
+  Theorem split_cost_g cap single : 0 <= total ->
+    let s := split_of L cap total buffer fee single in
+    sumZ (notes_of buffer s) + assumed_of L cap total buffer fee single * fee <= total.
   Proof.
-    intros Ht. unfold canonical_split, assumed_txs.
-    destruct (exact_note total buffer single && (0 <? cap)%nat) eqn:E.
+    intros Ht. unfold split_of, assumed_of.
+    destruct (exact_note_of L total buffer single && (0 <? cap)%nat) eqn:E.
     - cbn [length notes_of map sumZ fold_right]. lia.
-    - cbn zeta. pose proof (greedy_cost total buffer fee cap 0 0 ltac:(lia)) as G.
+    - cbn zeta. pose proof (greedy_cost total buffer fee L cap 0 0 ltac:(lia)) as G.
       rewrite TxsArith.stxs_0 in G. specialize (G ltac:(lia)). cbn zeta in G.
       rewrite !Z.add_0_l in G. exact G.
   Qed.
 
-  (** Below the cap, what the full split leaves over is smaller than the smallest self-funding
-      note plus one preparation fee. *)
+  Theorem split_residual_g cap single : mind <= maxd ->
+    let s := split_of L cap total buffer fee single in
+    (length s < cap)%nat ->
+    total - sumZ (notes_of buffer s) - assumed_of L cap total buffer fee single * fee < mind + buffer + fee.
+  Proof.
+    intros Hmm. unfold split_of, assumed_of.
+    destruct (exact_note_of L total buffer single && (0 <? cap)%nat) eqn:E.
+    - cbn [length notes_of map sumZ fold_right]. intros _. pose proof (lad_pos _ _ _ HL). lia.
+    - cbn zeta. intros Hl.
+      pose proof (greedy_residual total buffer fee L mind maxd HL Hfee cap 0 0 ltac:(lia) Hmm Hl) as G.
+      rewrite !Z.add_0_l in G. exact G.
+  Qed.
+End Canonical.
+
+(** ** The normative ZIP 318 bounds are an instance *)
+Lemma series_short : (length series < DESCEND_FUEL)%nat.
+Proof. rewrite series_eq. unfold DESCEND_FUEL. cbn [length]. lia. Qed.
+
+Lemma zip318_ladder : Ladder series MIN CAP.
+Proof.
+  constructor.
+  - exact series_sorted.
+  - exact series_bounds.
+  - intros aff H1 H2. apply l125_series; assumption.
+  - intros _. exact MIN_in_series.
+  - exact series_short.
+  - exact MIN_pos.
+  - pose proof CAP_le_MM. pose proof MIN_le_CAP. lia.
+  - exact CAP_le_MM.
+  - intros e H1 H2. rewrite l125_canonical_fix by assumption. reflexivity.
+Qed.
+
+Lemma greedy_of_series total buffer fee fuel : forall cn k,
+  greedy_of series fuel total buffer fee cn k = greedy fuel total buffer fee cn k.
+Proof.
+  induction fuel as [|f IH]; intros cn k; [reflexivity|]. cbn [greedy greedy_of].
+  destruct (find (fundable total buffer fee cn k) series); [|reflexivity]. rewrite IH. reflexivity.
+Qed.
+
+Lemma exact_note_of_series total buffer single : exact_note_of series total buffer single = exact_note total buffer single.
+Proof. reflexivity. Qed.
+
+Lemma split_of_series cap total buffer fee single :
+  split_of series cap total buffer fee single = canonical_split cap total buffer fee single.
+Proof. unfold split_of, canonical_split. rewrite exact_note_of_series, greedy_of_series. reflexivity. Qed.
+
+Lemma assumed_of_series cap total buffer fee single :
+  assumed_of series cap total buffer fee single = assumed_txs cap total buffer fee single.
+Proof. unfold assumed_of, assumed_txs. rewrite exact_note_of_series, greedy_of_series. reflexivity. Qed.
+
+Theorem split_correct total buffer fee cap :
+  0 <= total <= MAX_MONEY -> 0 <= buffer <= MAX_MONEY -> 0 <= fee <= MAX_MONEY ->
+  forall nc, 0 <= cap ->
+  unconstrained_split (zip318_strategy cap buffer) total nc fee
+  = Ok (canonical_split (Z.to_nat cap) total buffer fee (nc =? 1)).
+Proof.
+  intros Ht Hb Hf nc Hc. rewrite <- split_of_series.
+  exact (split_correct_g total buffer fee cap series MIN CAP zip318_ladder Ht Hb Hf nc Hc).
+Qed.
+
+Section CanonicalZip318.
+  Variables total buffer fee : Z.
+  Hypothesis Hbuffer : 0 <= buffer.
+  Hypothesis Hfee : 0 <= fee.
+
+  Theorem split_canonical cap single : Forall Canonical (canonical_split cap total buffer fee single).
+  Proof.
+    rewrite <- split_of_series. eapply Forall_impl; [|apply split_members_g].
+    intros a Ha. exact (series_canonical a Ha).
+  Qed.
+
+  Theorem split_sorted cap single : nonincreasing (canonical_split cap total buffer fee single) = true.
+  Proof. rewrite <- split_of_series. exact (split_sorted_g total buffer fee series MIN CAP zip318_ladder Hbuffer Hfee cap single). Qed.
+
+  Theorem split_length cap single : (length (canonical_split cap total buffer fee single) <= cap)%nat.
+  Proof. rewrite <- split_of_series. apply split_length_g. Qed.
+
+  Theorem split_cap_prefix c1 c2 single : (1 <= c1 <= c2)%nat ->
+    canonical_split c1 total buffer fee single = firstn c1 (canonical_split c2 total buffer fee single).
+  Proof. rewrite <- !split_of_series. apply split_cap_prefix_g. Qed.
+
+  Theorem split_emptiness_cap_invariant c1 c2 single : (1 <= c1)%nat -> (1 <= c2)%nat ->
+    (canonical_split c1 total buffer fee single = [] <-> canonical_split c2 total buffer fee single = []).
+  Proof. rewrite <- !split_of_series. apply split_emptiness_g. Qed.
+
+  Theorem split_cost cap single : 0 <= total ->
+    let s := canonical_split cap total buffer fee single in
+    sumZ (notes_of buffer s) + assumed_txs cap total buffer fee single * fee <= total.
+  Proof. rewrite <- split_of_series, <- assumed_of_series. apply split_cost_g. Qed.
+
   Theorem split_residual cap single :
     let s := canonical_split cap total buffer fee single in
     (length s < cap)%nat ->
     total - sumZ (notes_of buffer s) - assumed_txs cap total buffer fee single * fee < MIN + buffer + fee.
   Proof.
-    unfold canonical_split, assumed_txs.
-    destruct (exact_note total buffer single && (0 <? cap)%nat) eqn:E.
-    - cbn [length notes_of map sumZ fold_right]. intros _. pose proof MIN_pos. lia.
-    - cbn zeta. intros Hl.
-      pose proof (greedy_residual total buffer fee Hfee cap 0 0 ltac:(lia) Hl) as G.
-      rewrite !Z.add_0_l in G. exact G.
+    rewrite <- split_of_series, <- assumed_of_series.
+    intros s Hl. eapply (split_residual_g total buffer fee series MIN CAP); eauto using zip318_ladder, MIN_le_CAP.
   Qed.
-End Canonical.
+End CanonicalZip318.
